@@ -71,6 +71,11 @@ def run(c):
                       "chunks": [rnd.randint(1, max(1, blen)) for _ in range(rnd.randint(0, 4))],
                       "resp": {"status": status, "headers": rhs, "body": {"seed": (hash(rid) >> 3) & 0xffff, "len": rbody},
                                "framing": rfr, "frames": [rnd.randint(1, max(1, rbody)) for _ in range(rnd.randint(0, 4))]}}
+                if rbody >= 4096 and rnd.random() < 0.25:
+                    # a slowly streaming host: the body trickles out over ~0.3 s while the other connections to the same
+                    # endpoint go on sending requests
+                    st["resp"]["frames"] = [max(1, rbody // 12)] * 11
+                    st["resp"]["gap_ms"] = 25
                 meta[rid] = {"conn": conn, "k": k, "method": method, "target": target, "headers": hs, "blen": blen,
                              "bseed": st["body"]["seed"], "status": status, "rhs": rhs, "rlen": rbody, "rseed": st["resp"]["body"]["seed"],
                              "dest": dname}
@@ -93,6 +98,24 @@ def run(c):
                           "headers": [["Host", dip]], "body": {"seed": 5, "len": rnd.choice([64, 4096, 200000])}},
                          {"op": "close", "conn": ab}])
         aborts.append(ab)
+    # one-shot exchanges (the proxy is the side that closes): `Connection: close` from the client, a large answer, and a
+    # client that reads late through a small receive buffer -- the tail of the body must still arrive
+    for oi in range(3 if not thorough else 10):
+        conn = "os%d" % oi
+        rid = conn + "_1"
+        dip, dport, dname = dests[oi % 2]
+        rbody = rnd.choice([3 << 20, (3 << 20) + 12345, 1 << 20])
+        hs = [["Host", dip], ["Connection", "close"], ["X-Token", rid]]
+        rhs = [["Content-Type", "application/octet-stream"], ["X-Host", rid]]
+        st = {"op": "request", "conn": conn, "id": rid, "method": "GET", "target": "/oneshot/" + rid, "headers": hs,
+              "body": {"seed": 1, "len": 0}, "framing": "none", "read_delay_ms": 300, "timeout_ms": 60000,
+              "resp": {"status": 200, "headers": rhs, "body": {"seed": (hash(rid) >> 3) & 0xffff, "len": rbody}, "framing": rnd.choice(["cl", "chunked"]),
+                       "frames": []}}
+        meta[rid] = {"conn": conn, "k": 1, "method": "GET", "target": "/oneshot/" + rid, "headers": hs, "blen": 0, "bseed": 1, "status": 200,
+                     "rhs": rhs, "rlen": rbody, "rseed": st["resp"]["body"]["seed"], "dest": dname}
+        branches.append([{"op": "connect", "conn": conn, "attr": {"uid": 0, "admin": 1, "dip": dip, "dport": dport}, "rcvbuf": 4096, "timeout_ms": 60000},
+                         st, {"op": "close", "conn": conn}])
+    c.extra["one_shot_slow_reader_exchanges"] = 3 if not thorough else 10
     ev, d, _ = rig.run_rig({"steps": [{"op": "parallel", "branches": branches}], "drain_ms": 400}, "c14", timeout=900)
     recv_by_id, hseq, hconn_owner = {}, {}, {}
     for e in ev:
